@@ -1305,6 +1305,33 @@ func ruleR96(c *Ctx) {
 				reads++
 				c.Ok(f, cl, "read of instance data: "+exprString(cl.Fun), what, "its result is checked below wherever it is stored", false)
 			}
+			// kept through a method of the field's type: node.cache.Store(k, v), node.list = append(...) is an
+			// assignment and handled below
+			if cl, ok := n.(*ast.CallExpr); ok {
+				if se, ok := unparen(cl.Fun).(*ast.SelectorExpr); ok {
+					if fv := fieldOf(in, se.X); fv != nil {
+						if fsel, ok := unparen(se.X).(*ast.SelectorExpr); ok {
+							if owner := namedOf(in.TypeOf(fsel.X)); owner != nil && ll[owner] {
+								for _, a := range cl.Args {
+									src := ""
+									ast.Inspect(a, func(m ast.Node) bool {
+										if c2, ok := m.(*ast.CallExpr); ok && isLocatorRead(in, c2) {
+											src = exprString(c2.Fun) + "(...)"
+										}
+										if id, ok := m.(*ast.Ident); ok && tainted[objOf(in, id)] {
+											src = id.Name + " (read from the data locator)"
+										}
+										return src == ""
+									})
+									if src != "" {
+										c.Bad(f, cl, "instance data kept in field "+owner.Obj().Name()+"."+fv.Name(), what, "handed to "+exprString(cl.Fun)+": "+src)
+									}
+								}
+							}
+						}
+					}
+				}
+			}
 			as, ok := n.(*ast.AssignStmt)
 			if !ok {
 				return true
